@@ -289,6 +289,42 @@ theorem ctor_domain_tmexact_sub (a f k : F64) (h : tmExactOK a f k = true) (hf :
   simp only [tmExactOK, Bool.and_eq_true] at h
   simp [afkOK, afOK, h.1.1.1, h.1.2, h.2, hf]
 
+/-- **non-finite ellipsoid parameters are rejected**: an infinite or NaN equatorial radius or flattening is refused by every one of the
+ellipsoid / projection validators (Geodesic, GeodesicExact, Rhumb, Ellipsoid, AuxLatitude, DAuxLatitude: `abOK`; Geocentric: `afOK`;
+TransverseMercator, PolarStereographic, the conics: `afkOK`; TransverseMercatorExact: `tmExactOK`), whatever the other parameters -/
+theorem ctor_nonfinite_rejected (a f : F64) (h : a.isFinite = false ∨ f.isFinite = false) :
+    abOK a f = false ∧ afOK a f = false ∧ (∀ k, afkOK a f k = false ∧ tmExactOK a f k = false) := by
+  have hab : abOK a f = false := by
+    rcases h with h | h
+    · simp [abOK, pos, h]
+    · have : (one - f).isFinite = false := by
+        cases f with
+        | nan => rfl
+        | inf s => rw [sub_one_inf]; rfl
+        | fin s m e => simp [F64.isFinite] at h
+      simp [abOK, pos, mul_nonfinite a _ this]
+  have haf : afOK a f = false := by
+    rcases h with h | h
+    · simp [afOK, pos, h]
+    · simp [afOK, h]
+  refine ⟨hab, haf, fun k => ⟨by simp [afkOK, haf], ?_⟩⟩
+  rcases h with h | h
+  · simp [tmExactOK, pos, h]
+  · cases f with
+    | nan => simp [tmExactOK, F64.gt, F64.lt]
+    | inf s =>
+      have h1 : F64.lt (.inf false) one = false := by decide +kernel
+      have h2 : F64.gt (.inf true) 0 = false := by decide +kernel
+      cases s <;> simp [tmExactOK, h1, h2]
+    | fin s m e => simp [F64.isFinite] at h
+/-- non-vacuity: the WGS84 parameters are accepted by all four, `f = 1` and `f = 2` are rejected by all four, `f = 0` and a prolate
+`f = -1/150` are rejected by the exact transverse Mercator only -/
+example : let a := F64.ofInt 6378137; let f := F64.ofDecimal 335 5; let k := F64.ofDecimal 9996 4
+    (abOK a f && afOK a f && afkOK a f k && tmExactOK a f k) = true ∧
+    (abOK a 1 || afOK a 1 || afkOK a 1 k || tmExactOK a 1 k) = false ∧ (abOK a 2 || afOK a 2 || afkOK a 2 k || tmExactOK a 2 k) = false ∧
+    (abOK a 0 && afOK a 0 && afkOK a 0 k) = true ∧ tmExactOK a 0 k = false ∧ tmExactOK a (F64.neg (F64.div 1 (F64.ofInt 150))) k = false := by
+  decide +kernel
+
 /-- the one-parallel and two-parallel constructors of LambertConformalConic / AlbersEqualArea agree when the two
 parallels coincide (the pole tests are then vacuous) … -/
 theorem ctor_domain_lcc_1_2 (a f l k : F64) (hl : l.isNaN = false) : lcc1OK a f l k = lcc2OK a f l l k := by
